@@ -26,14 +26,14 @@ HISTORY_TAGS = {
 
 PROPS = {
     "C07": {
-        "runs": [("C07", "std", "normal"), ("C07", "nostd", "normal")],
+        "runs": [("C07", "std", "normal"), ("C07", "rel", "normal"), ("C07", "nostd", "normal")],
         "rule": "scanner histories include Default-constructed scanners (op 8). tag 70: every (channel, controller number) pair x boundary/seeded values (thorough: all 16384 values) through new/getters/to_short_messages for RawShortMessage and StructuredShortMessage; tag 71: seeded messages fed as encoded pairs after a seeded random prior history (any implementor kind). distinct = distinct input vectors; non-trivial = the observation contains a value other than None",
         "exhaustive": {"thorough": True},
         "assumptions": ["restricted integers are built through the checked public constructors",
                         "feeds use valid short messages (status >= 0x80, 7-bit data bytes)"],
     },
     "C08": {
-        "runs": [("C08", "std", "normal"), ("C08", "nostd", "normal")],
+        "runs": [("C08", "std", "normal"), ("C08", "rel", "normal"), ("C08", "nostd", "normal")],
         "rule": "tag 80: all histories of depth 4 (thorough: 6) over a 10-symbol abstract alphabet (MSB/LSB matching and non-matching, other controller, other message, second channel, reset, system message; raw / structured / third-party implementors) plus seeded random histories over the full alphabet on 1-16 channels. distinct = distinct histories; non-trivial = at least one report",
         "exhaustive": {},
         "assumptions": ["feeds use valid short messages"],
@@ -42,19 +42,19 @@ PROPS = {
 
 PROPS.update({
     "C09": {
-        "runs": [("C09", "std", "normal"), ("C09", "nostd", "normal")],
+        "runs": [("C09", "std", "normal"), ("C09", "rel", "normal"), ("C09", "nostd", "normal")],
         "rule": "tag 90: for each of the 8 constructors and both byte orders: all 16 channels, a sweep of the parameter numbers (thorough: all 16384) and of the values with the other arguments on boundary/seeded values, plus seeded random tuples; observation = getters, 4 slots for RawShortMessage and StructuredShortMessage, and the array conversion. distinct = distinct argument tuples; every record is non-trivial (a message is always built)",
         "exhaustive": {},
         "assumptions": ["arguments are valid restricted integers (built through the checked constructors)"],
     },
     "C10": {
-        "runs": [("C10", "std", "normal"), ("C10", "nostd", "normal")],
+        "runs": [("C10", "std", "normal"), ("C10", "rel", "normal"), ("C10", "nostd", "normal")],
         "rule": "tag 100: seeded messages of all 8 kinds, encoded (7-bit: both orders; 14-bit: LSB first) and fed, as any implementor kind, after a seeded random prior history; tag 101: running forms (single data bytes on controller 6/96/97, or LSB,MSB pairs) of length 0-12 and seeded long ones (200-500) after one selection and a random prior history",
         "exhaustive": {},
         "assumptions": ["feeds use valid short messages"],
     },
     "C11": {
-        "runs": [("C11", "std", "normal"), ("C11", "nostd", "normal")],
+        "runs": [("C11", "std", "normal"), ("C11", "rel", "normal"), ("C11", "nostd", "normal")],
         "rule": "tag 110: all histories of depth 4 (thorough: 5) over a 14-symbol abstract alphabet (each of the 8 contributing controllers, a non-contributing controller, a non-CC message, a second channel, reset, a system message) plus seeded random histories over the full alphabet on 1-16 channels; non-trivial = at least one report",
         "exhaustive": {},
         "assumptions": ["feeds use valid short messages"],
@@ -63,13 +63,13 @@ PROPS.update({
 
 PROPS.update({
     "C13": {
-        "runs": [("C13", "std", "normal")],
+        "runs": [("C13", "std", "normal"), ("C13", "rel", "normal")],
         "rule": "mock clock. tag 130: histories of feeds/polls/ticks/resets (all depth-4 (thorough 5) sequences over a 14-symbol abstract alphabet after an optional number selection, timeouts 0 and 5; seeded random histories on 1-16 channels with timeouts 0,1,5,1000,2^60 and time steps below/at/above the timeout), only poll results observed; tag 131: the same feeds under two different clocks (results must be equal); tag 132: histories with polls placed before the timeout, run with and without them (they must return nothing and change nothing). non-trivial = some value observed",
         "exhaustive": {},
         "assumptions": ["the mock clock (src/verif_hooks.rs) stands in for std::time::Instant; the real clock is assumed monotone"],
     },
     "C14": {
-        "runs": [("C14", "std", "normal")],
+        "runs": [("C14", "std", "normal"), ("C14", "rel", "normal")],
         "rule": "mock clock. tag 140: same history generators as C13 (abstract bounded-exhaustive + seeded random over the full alphabet incl. malformed and mixed registered/non-registered traffic, resets, polls, time steps); the implementation's complete trace is judged by the extracted C14 monitor (check_C14), independently of the model; agreement with the model is checked too",
         "exhaustive": {},
         "assumptions": ["the mock clock stands in for std::time::Instant"],
@@ -78,19 +78,19 @@ PROPS.update({
 
 PROPS.update({
     "C15": {
-        "runs": [("C15", "std", "normal")],
+        "runs": [("C15", "std", "normal"), ("C15", "rel", "normal")],
         "rule": "tag 150, for each of the three scanners: every ordered pair of the 16 channels x all depth-2 (thorough 4) sequences over an abstracted two-channel alphabet (incl. polls and time for the polling scanner), and seeded random interleavings on up to 16 channels over the full alphabet; the interleaved run is compared with own-scanner runs of the projected per-channel histories (metamorphic, model-free) and with the model; scanners are created by new() and (kinds 10-12, the whole pair sweep and one in five random histories) by Default::default(); histories of the non-polling scanners also contain 'replace the scanner by a Default one' (op 8), polling histories a negative timeout = Default-constructed",
         "exhaustive": {},
         "assumptions": ["mock clock for the polling scanner"],
     },
     "C16": {
-        "runs": [("C16", "std", "normal")],
+        "runs": [("C16", "std", "normal"), ("C16", "rel", "normal")],
         "rule": "tag 161: all 128 controller numbers (predicates + whether each scanner reacts); tag 162: every controller_numbers constant of the regenerated table; tag 160: for each scanner, after seeded random prior histories: every non-Control-Change status byte with seeded data bytes and every non-contributing controller number x {0,127,seeded} (thorough: all 128 values), fed as raw/structured/third-party implementors; observation = nothing reported and scanner == its copy taken before; plus 12000 (thorough 300000) records 'seeded history, then an open construct on channel c (MSB / selected number / pending first value byte), for the polling scanner a time step around the timeout, then a non-contributing message (non-CC with construct-like data bytes, system message, non-contributing CC) mostly on the same channel'; scanners created by new() and by Default::default()",
         "exhaustive": {"quick": False},
         "assumptions": ["derived PartialEq of the scanners is the notion of equal state"],
     },
     "C17": {
-        "runs": [("C17", "std", "normal")],
+        "runs": [("C17", "std", "normal"), ("C17", "rel", "normal")],
         "rule": "tag 170, for each scanner and timeouts {0,1,5,1000,2^60}: seeded random history, then reset: == new(timeout); default()==new (polling: new(0)); continuation outputs equal to a new scanner's; copies taken before the reset evolve identically and independently",
         "exhaustive": {},
         "assumptions": ["mock clock for the polling scanner", "copy independence is a language guarantee of derive(Copy) on plain data: modelled, exercised by the harness, not proved"],
@@ -99,25 +99,25 @@ PROPS.update({
 
 PROPS.update({
     "C01": {
-        "runs": [("C01", "std", "normal"), ("C01", "nostd", "normal")],
+        "runs": [("C01", "std", "normal"), ("C01", "rel", "normal"), ("C01", "nostd", "normal")],
         "rule": "tag 10: from_bytes for 4 factory implementations (raw, structured, two harness-defined third-party types) on all 256 status bytes x boundary data bytes, every type x all values of one data byte, seeded random triples (thorough: all 256x128x128 triples); tag 11: StructuredShortMessage values built through the public enum (all variants; quick: full sweep of one field with the others on boundaries, all 120 quarter frames, all 16384 song positions; thorough: every value); tag 12: all 128 quarter-frame bytes; tag 13: all 256 type codes",
         "exhaustive": {"thorough": True},
         "assumptions": ["data bytes are valid U7 values"],
     },
     "C02": {
-        "runs": [("C02", "std", "normal"), ("C02", "nostd", "normal")],
+        "runs": [("C02", "std", "normal"), ("C02", "rel", "normal"), ("C02", "nostd", "normal")],
         "rule": "tag 20: every classification / accessor method on raw, structured and third-party implementors for all 128 valid status bytes x boundary data bytes (incl. 119,120,121,127), every type x all values of one data byte, seeded random triples (thorough: all 2^21 triples x 3 implementors); tag 13: all 256 values of the ShortMessageType conversion",
         "exhaustive": {"thorough": True},
         "assumptions": [],
     },
     "C03": {
-        "runs": [("C03", "std", "normal"), ("C03", "nostd", "normal")],
+        "runs": [("C03", "std", "normal"), ("C03", "rel", "normal"), ("C03", "nostd", "normal")],
         "rule": "tag 30: all ordered pairs of the 4 implementors x {to_other, from_other} plus to_structured; all methods of the trait on the original and on the converted message; all valid status bytes x boundary data bytes + seeded random triples (thorough: every valid triple, cycling through the combinations). The decider compares the implementations with each other",
         "exhaustive": {},
         "assumptions": [],
     },
     "C06": {
-        "runs": [("C06", "std", "normal"), ("C06", "nostd", "normal")],
+        "runs": [("C06", "std", "normal"), ("C06", "rel", "normal"), ("C06", "nostd", "normal")],
         "rule": "tag 60: the 19 named constructors for RawShortMessage and StructuredShortMessage (quick: full sweep per argument with the others on boundaries; thorough: every argument tuple), all 16384 14-bit values x channels (quick: stride 11), all 128 quarter-frame bytes; tag 61: 23 types x 3 generic constructors x channels x boundary data; tag 62: test_util shorthands with in- and out-of-range primitives",
         "exhaustive": {"thorough": True},
         "assumptions": [],
@@ -126,13 +126,13 @@ PROPS.update({
 
 PROPS.update({
     "C04": {
-        "runs": [("C04", "std", "normal"), ("C04", "nostd", "normal")],
+        "runs": [("C04", "std", "normal"), ("C04", "rel", "normal"), ("C04", "nostd", "normal")],
         "rule": "two builds of the harness: default features (+serde) and --no-default-features. tag 40: every conversion impl of the regenerated table (harness dispatch generated from it) on every value of 8/16-bit and newtype sources, and on boundaries, 2^k +-1, type min/max and seeded random values of 32/64/128-bit and pointer-sized sources; only in-range/failed/panicked is observed; tag 41: T::new on every value of the representation type, in both configurations; tag 42: all strings over {0,1,2,5,9,+,-,space,a} up to length 4 (thorough 5) plus boundary and leading-zero numerals; tag 43: MIN/MAX/Default; tags 62-64: the test_util scalar helpers on every value of their argument type and the test_util shorthands with in- and out-of-range primitives (checked constructors too). The conversion table is what rustc sees (autoref probes over the 18x18 grid of numeric types), not a list parsed from the source",
         "exhaustive": {},
         "assumptions": ["usize/isize are 64-bit"],
     },
     "C05": {
-        "runs": [("C05", "std", "normal"), ("C05", "nostd", "normal")],
+        "runs": [("C05", "std", "normal"), ("C05", "rel", "normal"), ("C05", "nostd", "normal")],
         "rule": "tag 50: same conversion inputs as C04 with exact result values; tag 42: parsing alphabet as C04; tag 51: Display of every value of every type (formatted into a stack buffer) and parse-back; tag 52: equality/ordering/hash-equality for all pairs of the <=7-bit types and boundaries+neighbours+seeded pairs for U14; tag 43: MIN/MAX/Default",
         "exhaustive": {},
         "assumptions": ["usize/isize are 64-bit"],
@@ -141,7 +141,7 @@ PROPS.update({
 
 PROPS.update({
     "C19": {
-        "runs": [("C19", "std", "normal")],
+        "runs": [("C19", "std", "normal"), ("C19", "rel", "normal")],
         "rule": "harness built with features serde + serde_repr; inputs are serde_json::Value trees fed through serde_json::from_value. tag 190: every integer of -300..17000 (thorough -70000..70000) plus boundaries for each restricted integer type; all u8-ish values for ShortMessageType; names/forms for TimeCodeType and DataType; for every composite type the product of boundary values per field x {map, map with unknown key, sequence, missing field, short sequence, long sequence, wrong-typed field}, unknown variants, unit/newtype/struct variant forms, wrong JSON types; after a successful deserialization the panicking accessors (type(), lsb_controller_number(), to_short_messages()) are called. tag 191: serialize -> deserialize round trip of valid values of every type",
         "exhaustive": {},
         "assumptions": ["serde, serde_derive, serde_repr, serde_json are trusted (modelled in Model/Serde.v, tied by the correspondence)"],
@@ -150,7 +150,7 @@ PROPS.update({
 
 PROPS.update({
     "C12": {
-        "runs": [("C12", "std", "normal")],
+        "runs": [("C12", "std", "normal"), ("C12", "rel", "normal")],
         "rule": "mock clock. tag 120: (a) every conforming action sequence of the documented-forms grammar up to depth 6 (thorough 8) on one channel over {number MSB/LSB, cc38, cc6, increment, poll, tick(timeout), tick(timeout-1)}, timeouts 0 and 5; (b) seeded random: arbitrary prior traffic, then conforming streams interleaved on up to 16 channels with random values, polls, non-contributing messages and time steps below/at/above the timeout, timeouts 0,1,5,1000,2^60; (c) encode any ParameterNumberMessage (8 kinds, both byte orders), feed, poll after the timeout, after arbitrary prior traffic. The decider is the extracted grammar transducer (g_run), independent of the scanner model; conformance of the generated stream is re-checked by it",
         "exhaustive": {},
         "assumptions": ["the mock clock stands in for std::time::Instant"],
